@@ -9,6 +9,7 @@ CONSTANTS
   RF2 = 2
   Parts = {0}
   NoConf = NoConf
+  Merged = Merged
   Static = TRUE
   PubChoices <- MCAllPubs
 SYMMETRY NodeSym
